@@ -62,7 +62,8 @@ for d in glob.glob(os.path.join(V, "seeded", "*")):
     r = (m.get("recheck") or {}).get("result", "not re-run")
     now["obsolete" if m.get("obsolete") else r.split(" by ")[0]] += 1
 _pp = collections.Counter(os.path.basename(d).split("-")[0] for d in glob.glob(os.path.join(V, "seeded", "*")))
-out.append("%d confirmed seeded changes (" + "%d–%d per property, 12 rounds" % (min(_pp.values()), max(_pp.values())) + "; each written by a fresh agent that saw only the property text "
+_span = "%d to %d per property, 12 rounds" % (min(_pp.values()), max(_pp.values()))
+out.append("%d confirmed seeded changes (" + _span + "; each written by a fresh agent that saw only the property text "
            "and the list of mechanisms already taken). **First run** against the check as it stood then: %s. Every miss or half-detection "
            "was answered by strengthening the model, the theorems, the source ties or the generators (never by loosening), which on the way "
            "exposed most of the genuine defects of §11.4. **Now** (re-run of every seed against /repo HEAD by `tools_seed_recheck.py`): %s. "
